@@ -38,6 +38,9 @@ func (d *DeleteAclsResponse) decode(pd packetDecoder, version int16) (err error)
 	if err != nil {
 		return err
 	}
+	if n < 0 {
+		return errInvalidArrayLength
+	}
 	d.FilterResponses = make([]*FilterResponse, n)
 
 	for i := 0; i < n; i++ {
@@ -105,6 +108,9 @@ func (f *FilterResponse) decode(pd packetDecoder, version int16) (err error) {
 	n, err := pd.getArrayLength()
 	if err != nil {
 		return err
+	}
+	if n < 0 {
+		return errInvalidArrayLength
 	}
 	f.MatchingAcls = make([]*MatchingAcl, n)
 	for i := 0; i < n; i++ {
